@@ -20,4 +20,5 @@ pub mod runner2;
 pub mod runner3;
 pub mod runner4;
 pub mod runner5;
+pub mod runner6;
 pub mod unproj;
